@@ -154,7 +154,7 @@ ADDENDA3 = {
     "C13": "Round 11: a common weight factor of 1e-10.",
     "C15": "Round 11: file names with braces; a component of 1e-5 GPa; `cij fill` run in-process before writing, volume labels to six decimals; a writer with rules of its own.",
     "C16": "Round 11: enumerations are whole words; grid steps given without their sampling steps.",
-    "C18": "Round 11: energies relative to the minimum; decimal pressure grids give exactly NTV rows; tetragonal7 / trigonal7 tables in every run.",
+    "C18": "Round 11: energies relative to the minimum; decimal pressure grids give exactly NTV rows; tetragonal7 / trigonal7 tables in every run; the Voigt/Reuss contractions exported by C07.tla evaluated on every printed row.",
     "C19": "Round 11: tables and requests at negative pressures.",
     "C20": "Round 11: masses in kilogram and electron masses; mismatch refusals under python -O; mesh-fraction q-coordinates.",
 }
